@@ -228,7 +228,10 @@ class Exporter:
         if ty is _t.String:
             return f"(str {_cps(e.value)})" if e.value else "(str)"
         if ty is _t.CIString:
-            return f"(ci {_cps(e.value)})" if e.value else "(ci)"
+            # ASCII letters are exported lower-cased (the model folds ASCII case on both sides, so this is the same
+            # terminal); the regex of an optimized choice is read back the same way
+            v = "".join(c.lower() if c.isascii() else c for c in e.value)
+            return f"(ci {_cps(v)})" if v else "(ci)"
         if ty is _t.Range:
             return f"(rng {_one(e.start, 'Range.start')} {_one(e.stop, 'Range.stop')})"
         if ty is _special._Any:
